@@ -788,7 +788,10 @@ async fn run(input: RunInput, mode: Mode) -> RunOutput {
                     if *q != p {
                         continue;
                     }
-                    if t.abs_diff(seen.at_ns) <= 2_000_000 {
+                    // (events are stamped when the observer task receives them: with busy handlers
+                    // the process is one busy thread and the observer runs late - sweep seed 1005,
+                    // NewPeer seen 3.8 ms after the request it made possible)
+                    if t.abs_diff(seen.at_ns) <= 2_000_000 + if busy_handlers { 60_000_000 } else { 0 } {
                         ambiguous = true;
                     }
                     if *t <= seen.at_ns {
